@@ -235,10 +235,10 @@ fn spec_args(s: &Spec) -> Vec<String> {
     vec!["c08-one".into(), "--n".into(), s.n.to_string(), "--tasks".into(), s.tasks.clone(), "--script".into(), s.script.to_string(), "--plan".into(), s.plan.to_string()]
 }
 
-static BLOCKED_BY_SCRIPT: [AtomicU64; 6] = [AtomicU64::new(0), AtomicU64::new(0), AtomicU64::new(0), AtomicU64::new(0), AtomicU64::new(0), AtomicU64::new(0)];
+static BLOCKED_BY_SCRIPT: [AtomicU64; 8] = [AtomicU64::new(0), AtomicU64::new(0), AtomicU64::new(0), AtomicU64::new(0), AtomicU64::new(0), AtomicU64::new(0), AtomicU64::new(0), AtomicU64::new(0)];
 
 fn run_spec(s: &Spec, r: &mut Report) {
-    if BLOCKED_BY_SCRIPT[s.script % 6].load(Ordering::SeqCst) >= 6 {
+    if BLOCKED_BY_SCRIPT[s.script % 8].load(Ordering::SeqCst) >= 6 {
         // the same lifecycle script has already blocked forever six times: do not spend 7 s on each further one
         r.count("scenarios_skipped_after_repeated_block", 1);
         return;
@@ -298,7 +298,7 @@ fn run_spec(s: &Spec, r: &mut Report) {
             if let Some(a) = v.as_arr() {
                 let ex = J::obj(vec![("scenario", desc.clone()), ("observed", a[1].clone()), ("event_trace", j.get("trace").cloned().unwrap_or(J::Null))]);
                 if a[0].as_str().map(|x| x.contains("block")).unwrap_or(false) {
-                    BLOCKED_BY_SCRIPT[s.script % 6].fetch_add(1, Ordering::SeqCst);
+                    BLOCKED_BY_SCRIPT[s.script % 8].fetch_add(1, Ordering::SeqCst);
                 }
                 r.violation(a[0].as_str().unwrap_or("C08/?"), format!("{} [{} workers, tasks {:?}, script {:?}, plan {}]", a[1].as_str().unwrap_or(""), s.n, s.tasks, script_from(s.script), s.plan), ex, replay.clone());
             }
@@ -318,7 +318,7 @@ pub fn specs(seed: u64, thorough: bool) -> Vec<Spec> {
     for n in 1..=3usize {
         for len in 0..=4usize {
             for mask in 0..(1u32 << len) {
-                for script in 0..4usize {
+                for script in [0usize, 1, 2, 3, 6, 7] {
                     for p in 0..plans_per {
                         let tasks: String = (0..len).map(|i| if mask & (1 << i) != 0 { if rng.chance(1, 3) { 'q' } else { 'p' } } else { *rng.pick(&normal) }).collect();
                         let plan = if p == 0 && script % 2 == 0 && !thorough { 0 } else { rng.next_u64() | 1 };
@@ -333,7 +333,7 @@ pub fn specs(seed: u64, thorough: bool) -> Vec<Spec> {
     }
     // a restarted worker panicking again, on a one-worker pool
     for t in ["pp", "ppr", "pprp", "qqqr", "rpprp"] {
-        for script in 0..4 {
+        for script in [0usize, 1, 2, 3, 6, 7] {
             v.push(Spec { n: 1, tasks: t.into(), script, plan: rng.next_u64() | 1 });
         }
     }
@@ -343,7 +343,7 @@ pub fn specs(seed: u64, thorough: bool) -> Vec<Spec> {
         let len = match rng.below(4) { 0 => rng.urange(0, 6), 1 | 2 => rng.urange(6, 24), _ => rng.urange(24, 64) };
         let pp = rng.below(4);
         let tasks: String = (0..len).map(|_| if rng.below(10) < pp { if rng.chance(1, 2) { 'p' } else { 'q' } } else { *rng.pick(&normal) }).collect();
-        v.push(Spec { n, tasks, script: rng.usize(4), plan: rng.next_u64() | 1 });
+        v.push(Spec { n, tasks, script: *rng.pick(&[0usize, 1, 2, 3, 6, 7]), plan: rng.next_u64() | 1 });
     }
     v
 }
@@ -373,7 +373,7 @@ pub fn main(args: &Args) {
     for h in hs {
         total.merge(h.join().unwrap());
     }
-    total.write(out, "thread-pool scenarios, one process each: N in 1..3 x every panic subset of every task list of length 0..4 (task bodies return/yield/spin/sleep, panic before or after work) x 4 lifecycle scripts (wait+barrier round+stop+drop, stop with tasks still queued+drop, wait+barrier round+drop without stop, immediate drop without stop) + never-started and start-stop-drop pools + repeated panics on a one-worker pool + random scenarios with 1..8 workers and up to 64 tasks; each under a seeded delay plan on 11 failpoints inside pool/recovery code. distinct = distinct (scenario, sequence of (event, task, worker name)) i.e. observed interleavings; non-trivial = at least one task event", None, &["interleavings are sampled (delay plans + OS scheduling), not enumerated: the property's systematic preemption-bounded quantifier is not delivered by this family", "blocked-forever is decided by a 6 s watchdog plus two /proc samples one second apart showing every thread asleep with unchanged CPU ticks; otherwise the run is inconclusive", "the pool's recovery thread is detached by design and is not counted as a worker thread"]);
+    total.write(out, "thread-pool scenarios, one process each: N in 1..3 x every panic subset of every task list of length 0..4 (task bodies return/yield/spin/sleep, panic before or after work) x 6 lifecycle scripts (wait+barrier round+stop+drop, stop with tasks still queued+drop, wait+barrier round+drop without stop, immediate drop without stop, and restart: run-stop-start-run followed by stop+drop or drop) + never-started and start-stop-drop pools + repeated panics on a one-worker pool + random scenarios with 1..8 workers and up to 64 tasks; each under a seeded delay plan on 11 failpoints inside pool/recovery code. distinct = distinct (scenario, sequence of (event, task, worker name)) i.e. observed interleavings; non-trivial = at least one task event", None, &["interleavings are sampled (delay plans + OS scheduling), not enumerated: the property's systematic preemption-bounded quantifier is not delivered by this family", "blocked-forever is decided by a 6 s watchdog plus two /proc samples one second apart showing every thread asleep with unchanged CPU ticks; otherwise the run is inconclusive", "the pool's recovery thread is detached by design and is not counted as a worker thread"]);
 }
 
 pub fn replay_one(args: &Args) {
